@@ -591,6 +591,45 @@ def stage4b():
     return done
 
 
+# ------------------------------------------------------------------ stage 4, part 3: the descriptor of an encoded header
+C07_STAGE4C = """
+(* ---- third wave (stage 4, part 3): UnpackInfo.write(file, with_crcs=True) and HeaderStreamsInfo.write as translated on this run
+   are Enc.write_unpackinfo_crcs and, for the object Header._encode_header builds (one packed stream, no packed CRC, one folder
+   carrying the CRC-32 of the plain header), Enc.hdr_descriptor: the part of C20's layout theorem between the packed header and
+   the signature header. ---- *)
+Theorem C07_gen_UnpackInfo_write_crcs_is_model : forall self : ArchiveinfoRecords.UnpackInfo,
+  ArchiveinfoRecords.UnpackInfo_write self true =
+  if ArchiveinfoRecords.UnpackInfo_numfolders self =? zlen (ArchiveinfoRecords.UnpackInfo_folders self)
+  then Enc.write_unpackinfo_crcs (map FolderGen.folder_of (ArchiveinfoRecords.UnpackInfo_folders self)) else Err EOther.
+Proof. exact EncHdrGen.gen_UnpackInfo_write_crcs_eq_model. Qed.
+Print Assumptions C07_gen_UnpackInfo_write_crcs_is_model.
+
+Theorem C07_gen_HeaderStreamsInfo_write_is_hdr_descriptor :
+  forall (p : ArchiveinfoRecords.PackInfo) (g : ArchiveinfoRecords.Folder) (so : option ArchiveinfoRecords.SubstreamsInfo)
+         packpos hpacksize hrawlen hpcrc hrawcrc (hcoders : list coder),
+  ArchiveinfoRecords.PackInfo_enable_digests p = false ->
+  PackInfoGen.pack_of p = mkPack packpos 1 [hpacksize] [] [hpcrc] ->
+  FolderGen.folder_of g = Header.mkFolder hcoders (Enc.mk_bonds (zlen hcoders)) [] [hrawlen] true (Some hrawcrc) ->
+  (do (o, out) <- ArchiveinfoRecords.HeaderStreamsInfo_write
+                    (ArchiveinfoRecords.mkHeaderStreamsInfo (Some p) (Some (ArchiveinfoRecords.mkUnpackInfo 1 [g] None)) so); Ok out)
+  = Enc.hdr_descriptor packpos hcoders hpacksize hrawlen hpcrc hrawcrc.
+Proof. exact EncHdrGen.gen_HeaderStreamsInfo_write_descriptor. Qed.
+Print Assumptions C07_gen_HeaderStreamsInfo_write_is_hdr_descriptor.
+"""
+
+WRITE_DEPS_4C = ["HeaderStreamsInfo", "HeaderStreamsInfo.write"]
+
+
+def stage4c():
+    done = []
+    add_require("coq/props/C07.v", "From P7gen Require ArchiveinfoSig.\n", "From P7 Require EncHdrGen.\n")
+    if patch("coq/props/C07.v", "C07_gen_UnpackInfo_write_crcs_is_model", [], C07_STAGE4C):
+        done.append("props/C07.v")
+    if add_gen_deps("tools/harness/c07.py", WRITE_DEPS_4C):
+        done.append("tools/harness/c07.py")
+    return done
+
+
 if __name__ == "__main__":
     print("stage 1:", stage1())
     print("stage 2:", stage2())
@@ -598,3 +637,4 @@ if __name__ == "__main__":
     print("stage 4:", stage4())
     print("stage 5:", stage5())
     print("stage 4b:", stage4b())
+    print("stage 4c:", stage4c())
